@@ -237,6 +237,17 @@ func (e *Engine) specMods(s *FuncSpec) *ModSet {
 			ptypes[p.Name()] = p.Type()
 		}
 	}
+	// package scope for globals: smuggle any named type of the package
+	if pkg != nil {
+		for _, n := range pkg.Scope().Names() {
+			if tn, ok := pkg.Scope().Lookup(n).(*types.TypeName); ok {
+				if nm, ok := tn.Type().(*types.Named); ok {
+					ptypes["\x00pkg"] = nm
+					break
+				}
+			}
+		}
+	}
 	for _, a := range s.Assigns {
 		if !e.staticAssignComps(m, a.Expr, ptypes, pkg) {
 			m.all = true
@@ -251,7 +262,19 @@ func (e *Engine) specMods(s *FuncSpec) *ModSet {
 func (e *Engine) staticType(x Expr, ptypes map[string]types.Type) types.Type {
 	switch n := x.(type) {
 	case *EIdent:
-		return ptypes[n.Name]
+		if t, ok := ptypes[n.Name]; ok {
+			return t
+		}
+		if pkg, ok := ptypes["\x00pkg"]; ok {
+			if nm, ok := pkg.(*types.Named); ok && nm.Obj().Pkg() != nil {
+				if o := nm.Obj().Pkg().Scope().Lookup(n.Name); o != nil {
+					if v, ok := o.(*types.Var); ok {
+						return v.Type()
+					}
+				}
+			}
+		}
+		return nil
 	case *EField:
 		t := e.staticType(n.X, ptypes)
 		if t == nil {
